@@ -297,4 +297,24 @@ theorem c19_period_json (endT tm tu tr : Int) :
     2 * (TP.remaining E' tr - (E' - tr)) ≤ TP.second ∧ 2 * ((E' - tr) - TP.remaining E' tr) ≤ TP.second :=
   TP.c19_period_json endT tm tu tr
 
+/-- decoding a JSON document into a time period is a function of the document (and the clock) only:
+    the result does not depend on what the Go value held before — a second decode into the same value
+    behaves like a decode into a fresh one (tied to `UnmarshalJSON` by sequences of decodes into one
+    value, directly and through a surrounding struct, and by an alias check on copies of the earlier
+    value) -/
+theorem c19_period_decode_history_independent (p q doc : TP.Period) (now : Int) :
+    TP.decode p doc now = TP.decode q doc now := TP.period_decode_history_independent p q doc now
+
+/-- … in particular a document with only a relative end time is read back as the remaining duration
+    to the second whatever was decoded before, and no decode leaves a static relative end time behind -/
+theorem c19_period_decode_relative (prev : TP.Period) (d now now' : Int) :
+    (TP.decode prev ⟨.none, .rel d⟩ now).start = .none ∧
+    TP.getDuration (TP.decode prev ⟨.none, .rel d⟩ now) now' = some (TP.remaining (TP.endOf now d) now') ∧
+    ∀ doc d', ¬ ((TP.decode prev doc now).start = .none ∧ (TP.decode prev doc now).endT = .rel d') :=
+  ⟨rfl, rfl, fun doc d' => TP.decode_no_static_relative_end prev doc now d'⟩
+
+/-- non-vacuity: 90 s decoded at 1.3 s over a value that held a start time; read at 2.9 s -/
+example : TP.getDuration (TP.decode ⟨.abs 5, .abs 7⟩ ⟨.none, .rel 90000000000⟩ 1300000000) 2900000000 =
+    some 88000000000 := by decide
+
 end Spine.Props.C19
